@@ -61,15 +61,18 @@ PARTIAL = [
     "block creation composes with the store model's createBlock (C03_store_step_mkBlock, via C04_refines_create_block).  NOT PROVED: "
     "C03_parser_store_refines_full (a def) — the recorded calls translated into a Store.Op history (Model/ParserStoreOps.storeOps) and run "
     "through Store.step from a new CIF all return CIF_OK and end in a store whose abstraction Store.abs IS the parser model's CIF.  It is "
-    "EXECUTED by the model driver on every request of family parse with a fresh target (about 6 000 per quick run, every recovery path, "
-    "aborted parses; exact equality incl. enumeration orders; any failure is a model/implementation disagreement); lenient creations "
-    "(invalid codes accepted after the report, the anonymous block) are not expressible as Store.Op and are skipped there.  What a proof "
+    "EXECUTED by the model driver on every request of family parse with a target (fresh: about 6 100 per quick run; pre-filled, the "
+    "history being cifOps(pre-existing content) ++ trace: about 1 250; every recovery path, aborted parses; exact equality incl. "
+    "enumeration orders; any failure is a model/implementation disagreement); lenient creations (invalid codes accepted after the "
+    "report, the anonymous block) are not expressible as Store.Op and are skipped there (about 430 per run).  What a proof "
     "needs: the lift of the container-local refinement lemmas of C04 (absLoops d cid) to the tree Store.abs at a path (save frames have "
     "unique parents), the transaction brackets of the API wrappers incl. set_value's add_scalar composition, and the handle tables of "
     "Store.step; that the premises of C03_store_ops_documented hold at every intermediate state of a parse (only proved for the final state)",
-    "family parse observes the store calls of the REAL parser as six counters (function-like macros around #include \"parser.c\" in "
-    "harness/x_parse.c: calls that return CIF_OK) and compares them with the model's trace on every request; the ORDER of the calls and "
-    "their arguments are not observed (only through the final dump)",
+    "family parse observes the store calls of the REAL parser (function-like macros around #include \"parser.c\" in harness/x_parse.c: "
+    "calls that return CIF_OK) as six counters and as the SEQUENCE of calls with a digest of the name argument (length of the code / "
+    "data name, number of loop names) and compares both with the model's trace on every request; values and container arguments are "
+    "observed only through the final dump.  Price: a rewrite of parser.c that changes the sequence of successful store calls without "
+    "changing the content is reported as a broken correspondence (no-failing-input-found)",
     "memory safety, undefined behaviour and byte decoding of the C are runtime-observed only (families parse and parsebytes).",
 ]
 LEVEL_TEXT = ("Theorems about the executable integrated parser model (every input string, every option record, every callback "
